@@ -2,6 +2,7 @@
 From MD Require Import Lib.Base Model.Node Model.Codec.PyInt Model.Codec.Utf Model.Codec.Percent Model.Dec.XmlChr Model.Dec.ReLib Model.Dec.EscDec.
 From MD Require Import Proofs.UtfProofs Proofs.PercentProofs Proofs.PyIntProofs Proofs.XmlChrProofs Proofs.EscDecProofs.
 From MD Require Import Regex.Syntax Generated.Regexes Proofs.Shapes1.
+From MD Require Import Regex.LocalityProofs Proofs.RoundTrip.
 
 (* a run of references with decimal 0-255 / two-digit hex items decodes to exactly those bytes (any count) *)
 Theorem C14_xml_codec : forall items : list bytes, xml_items_ok items -> unescape_xml (concat (map xml_reference items)) = Ok (map xml_item_num items) /\ wf_bytes (map xml_item_num items).
@@ -98,6 +99,21 @@ Print Assumptions C14_utf16_regex_shape.
 Theorem C14_utf16_total : forall data : bytes, find_utf16 data = Hang \/ (exists nodes : list node, find_utf16 data = Ok nodes /\ Forall (utf16_node_ok data) nodes).
 Proof. exact find_utf16_total. Qed.
 Print Assumptions C14_utf16_total.
+
+(* END-TO-END ROUND TRIP (Proofs/RoundTrip.v): for EVERY payload, the encoded form embedded after any neutral prefix (no byte that can start a match of the pattern) and before ANY suffix is found by the model's matcher on the regenerated pattern, as ONE node with exactly the form's span and the payload as value; later nodes start after it.  `Hang` (matcher fuel on the arbitrary suffix) is the only alternative. *)
+Theorem C14_unescape_roundtrip : forall (pre : list N) (p : bytes) (suf : list N), wf_bytes p -> (Datatypes.length (quote_all p) + 64 <= Backtrack.default_fuel)%nat -> neutral RE_javascript_UNESCAPE_RE pre = true -> let form := s2b "unescape('" ++ quote_all p ++ s2b "')" in let data := pre ++ form ++ suf in find_unescape data = Hang \/ (exists rest : list node, find_unescape data = Ok (Node (s2b "string") p (s2b "function.unescape") (blen pre) (blen pre + blen form) [] :: rest) /\ Forall (fun nd : node => blen pre + blen form <= n_st nd) rest).
+Proof. exact find_unescape_roundtrip. Qed.
+Print Assumptions C14_unescape_roundtrip.
+
+(* UTF-16LE text of >= 7 Latin-1 units, suffix not continuing the run *)
+Theorem C14_utf16_roundtrip : forall (pre units : list N) (suf : bytes), forallb utf16_unit units = true -> (7 <= Datatypes.length units)%nat -> utf16_stop suf = true -> (Datatypes.length (interleave0 units) + 64 <= Backtrack.default_fuel)%nat -> neutral RE_codec_UTF16_RE pre = true -> let form := interleave0 units in let data := pre ++ form ++ suf in find_utf16 data = Hang \/ (exists rest : list node, find_utf16 data = Ok (Node [] (flat_map utf8_latin1 units) (s2b "codec.uft-16") (blen pre) (blen pre + blen form) [] :: rest) /\ Forall (fun nd : node => blen pre + blen form <= n_st nd) rest).
+Proof. exact find_utf16_roundtrip. Qed.
+Print Assumptions C14_utf16_roundtrip.
+
+(* >= 5 decimal character references, suffix not continuing the run *)
+Theorem C14_xml_roundtrip : forall (pre : list N) (p suf : bytes), wf_bytes p -> (5 <= Datatypes.length p)%nat -> xml_stop suf = true -> (Datatypes.length (xml_form p) + 64 <= Backtrack.default_fuel)%nat -> neutral RE_xml_XML_ESCAPE_RE pre = true -> let form := xml_form p in let data := pre ++ form ++ suf in find_xml_hex data = Hang \/ (exists rest : list node, find_xml_hex data = Ok (Node [] p (s2b "unescape.xml") (blen pre) (blen pre + blen form) [] :: rest) /\ Forall (fun nd : node => blen pre + blen form <= n_st nd) rest).
+Proof. exact find_xml_hex_roundtrip. Qed.
+Print Assumptions C14_xml_roundtrip.
 
 Example C14_example :
   find_xml_hex (L"zz &#72;&#x69;&#33;&#10;&#x41; zz") = Ok [Node [] [72; 105; 33; 10; 65]%N (L"unescape.xml") 3 30 []]
